@@ -13,6 +13,8 @@ impl<T> Queue<T> {
     pub(crate) fn k_push(&self, t: T, _guard: &Guard) {
         unsafe { Q_PUSHES += 1; assert!(Q_TAIL < 4); Q_ITEMS[Q_TAIL] = Box::into_raw(Box::new(t)) as usize; Q_TAIL += 1; }
     }
+    /// an empty queue (used to cut the collector-teardown cone where the collector provably survives)
+    pub(crate) fn k_try_pop_empty(&self, _guard: &Guard) -> Option<T> { None }
     /// removes the head only if the predicate holds for that very element; None if empty or predicate false
     pub(crate) fn k_try_pop_if<F>(&self, condition: F, _guard: &Guard) -> Option<T>
     where
